@@ -614,7 +614,7 @@ def coq_case(c, o):
         return f"({inp}, {cvals(dec)})"
     if k == "deser":
         inp = (f"IXDeser {clist(c['rows'], lambda r: clist(r, cnat))} {cmiss(c.get('missing'))} "
-               f"{cxdt({'dt': 'int64', 'be': False, 'w': 0})} {clist(c['data'], cz)}")
+               f"{cxdt(c.get('xdt') or {'dt': 'int64', 'be': False, 'w': 0})} {clist(c['data'], cz)}")   # xdt: harvested calls (harness/harvest.py)
         return f"({inp}, {cvals(o)})"
     if k in ("cons", "pipe"):
         items = ["None" if x is None else f"(Some {cxvarr(xabstract(as_array(x)))})" for x in c["seq"]]
